@@ -56,6 +56,7 @@ INCLUDED = {
 def run(res, programs, tier):
     res.rule("R06.1", "infallible From<A> for B between number types only along value-set inclusions (impl table)")
     res.rule("R06.2", "a right shift of the converted value inside a TryFrom body is dominated by a test of the shifted-out bits with an Err edge")
+    res.rule("R06.4", "sibling agreement: f32/f64 FloatEncoding::{encode,decode} have the same structure; to_f32/to_f64 of large integers split at one position (kept bits, sticky range, exponent)")
     res.rule("R06.3", "TryFrom<big> for primitive integers reaches try_to_unsigned / try_to_signed (range-checked), never a bare `as` truncation")
     for P in programs:
         if P.role != "main":
@@ -64,6 +65,7 @@ def run(res, programs, tier):
         _r06_1(res, P, cfgname)
         _r06_2(res, P, cfgname)
         _r06_3(res, P, cfgname)
+        _r06_4(res, P, cfgname)
 
 
 def _r06_1(res, P, cfgname):
@@ -120,6 +122,75 @@ def _r06_2(res, P, cfgname):
             else:
                 res.fail("R06.2", cfgname, key, "%s shifts the converted value right without testing the shifted-out bits: a fractional input (e.g. 1.5) is truncated and reported as Ok instead of LossOfPrecision" % f["p"], span_loc(t["sp"]))
     res.floor("R06.2", cfgname, n, 4, "right shifts inside TryFrom bodies")
+
+
+def _skeleton(f):
+    """multiset of statement shapes of a body with numeric constants and primitive widths erased"""
+    from collections import Counter
+    c = Counter()
+    S = sym.Sym(f)
+    for i, j, st in mir.iter_stmts(f["mir"]):
+        if st["k"] != "as":
+            continue
+        rv = st["rv"]
+        if rv["k"] == "bin":
+            c["bin:" + rv["op"].replace("WithOverflow", "")] += 1
+        elif rv["k"] == "agg" and rv["ak"] == "adt":
+            ops = []
+            for o in rv["ops"]:
+                t = S.operand(o)
+                ops.append(t[0] if t[0] != "call" else "call:" + t[1].rsplit("::", 1)[1])
+            c["agg:%s::%s(%s)" % (rv["adt"].rsplit("::", 1)[1], rv["vn"], ",".join(ops))] += 1
+    for bb, t, fr in mir.iter_calls(f["mir"]):
+        cp = fr and (fr.get("rp") or fr["p"])
+        if cp:
+            c["call:" + re.sub(r"\b(f|u|i)(16|32|64|128)\b", "N", cp)] += 1
+    return c
+
+
+SKELETON_SIBLINGS = [
+    ("dashu_base", "<f32 as dashu_base::bit::FloatEncoding>::encode", "<f64 as dashu_base::bit::FloatEncoding>::encode"),
+]
+
+
+def _r06_4(res, P, cfgname):
+    for crate, a, b in SKELETON_SIBLINGS:
+        fa = next((f for f in P.fns(crate) if f["p"] == a), None)
+        fb = next((f for f in P.fns(crate) if f["p"] == b), None)
+        key = "%s ~ %s" % (a, b)
+        if fa is None or fb is None:
+            res.anchor("R06.4", cfgname, "sibling pair " + key)
+            continue
+        sa, sb = _skeleton(fa), _skeleton(fb)
+        if sa == sb:
+            res.ok("R06.4", cfgname, key, sample=dict(pair=[a, b], shapes=sum(sa.values())))
+        else:
+            diff = {k: (sa[k], sb[k]) for k in set(sa) | set(sb) if sa[k] != sb[k]}
+            res.fail("R06.4", cfgname, key, "the f32 and f64 implementations of one IEEE encoding step differ in structure (shape: count in f32 vs f64): %s" % dict(list(diff.items())[:3]), span_loc(fb["sp"]))
+    # integer -> float: bits kept, sticky range and exponent come from one split position
+    for name in ("to_f32_nontrivial", "to_f64_nontrivial"):
+        f = next((g for g in P.fns("dashu_int") if g.get("name") == name), None)
+        if f is None:
+            res.anchor("R06.4", cfgname, "fn " + name)
+            continue
+        S = sym.Sym(f)
+        terms = {}
+        for bb, t, fr in mir.iter_calls(f["mir"]):
+            cp = fr and (fr.get("rp") or fr["p"]) or ""
+            if cp.endswith("::shr") and "shift_ops" in cp:
+                terms["shift"] = strip_bb(sym.strip_casts(S.operand(t["a"][1])))
+            if cp.endswith("::are_low_bits_nonzero"):
+                terms["sticky"] = strip_bb(sym.strip_casts(S.operand(t["a"][1])))
+            if cp.endswith("FloatEncoding>::encode"):
+                terms["exponent"] = strip_bb(sym.strip_casts(S.operand(t["a"][1])))
+        key = "%s: shift == sticky range == exponent" % name
+        if len(terms) != 3:
+            res.anchor("R06.4", cfgname, key + " (found %s)" % sorted(terms))
+        elif len({sym.term_str(v, 200) for v in terms.values()}) == 1:
+            res.ok("R06.4", cfgname, key, sample=dict(function=f["p"], split=sym.term_str(terms["shift"], 80)))
+        else:
+            res.fail("R06.4", cfgname, key, "%s splits the integer inconsistently: kept bits start at %s, sticky range is below %s, exponent is %s (a discarded bit would be neither kept nor counted as lost)" % (
+                f["p"], sym.term_str(terms["shift"], 60), sym.term_str(terms["sticky"], 60), sym.term_str(terms["exponent"], 60)), span_loc(f["sp"]))
 
 
 def _r06_3(res, P, cfgname):
